@@ -26,9 +26,10 @@ def plans(tier):
         for b in allbits:
             other = t ^ (1 << b)
             third = t ^ (1 << ((b + 3) % (8 * n)))
-            ks = [t, other] if n > 2 else [t, other, third]
-            out.append(dict(key_size=n, default=b"" if b % 2 == 0 else b"\x07", keys=tuple(hexkey(k, n) for k in ks), values=("a", "bb"),
-                            track=hexkey(t, n), probes=()))
+            allones = t ^ ((1 << (b + 1)) - 1)  # differs from t at bit b AND at every lower bit (e.g. the complement key)
+            ks = [t, other, allones] if (n > 2 and b >= 1) else [t, other, third]
+            out.append(dict(key_size=n, default=b"" if b % 2 == 0 else b"\x07", keys=tuple(hexkey(k, n) for k in ks),
+                            values=("a", "bb") if n <= 3 else ("a",), track=hexkey(t, n), probes=(), quiet=2))
     if tier == "thorough":
         t = 0x40
         ks = [t] + [t ^ (1 << b) for b in range(8)]
